@@ -110,6 +110,25 @@ fn trees(r: &mut Report) {
     let got = no_panic(|| record_artifacts(&[format!("{}/./a/../a", rs).as_str()], None, Some(&[format!("{}/", rs).as_str()])));
     let keys = got.as_ref().ok().and_then(|x| x.as_ref().ok()).map(|m| m.keys().map(|k| k.value().to_string()).collect::<Vec<_>>());
     r.case("non-normalised-argument", json!({"path": "<root>/./a/../a", "strip": "<root>/"}), "[\"a/f\"]", format!("{:?}", keys), keys == Some(vec!["a/f".to_string()]));
+    // every spelling of one directory records the same entries (the argument is normalised as text before anything is read), and every
+    // recorded key names a file that really has the recorded digest
+    {
+        use std::os::unix::fs::symlink;
+        let d2 = crate::fixture::tmpdir();
+        let t = d2.path().join("T");
+        std::fs::create_dir_all(t.join("a/b")).unwrap(); std::fs::create_dir_all(t.join("a/c")).unwrap(); std::fs::create_dir_all(t.join("t/sub")).unwrap(); std::fs::create_dir_all(t.join("t/b")).unwrap();
+        std::fs::write(t.join("a/b/x"), "x").unwrap(); std::fs::write(t.join("a/b/y"), "y").unwrap(); std::fs::write(t.join("t/b/x"), "other x").unwrap(); std::fs::write(t.join("t/b/z"), "z").unwrap();
+        symlink("../t/sub", t.join("a/link")).unwrap();
+        let ts = t.to_str().unwrap().to_string();
+        let reference = no_panic(|| record_artifacts(&[format!("{}/a/b", ts).as_str()], None, None)).ok().and_then(|x| x.ok());
+        for sp in ["a/b/", "a//b", "./a/b", "a/./b", "a/c/../b", "a/b/../b", "a/link/../b", "t/../a/b"] {
+            let got = no_panic(|| record_artifacts(&[format!("{}/{}", ts, sp).as_str()], None, None));
+            let same = match (&got, &reference) { (Ok(Ok(g)), Some(rf)) => g == rf, _ => false };
+            let honest = match &got { Ok(Ok(g)) => g.iter().all(|(k, h)| std::fs::read(k.value()).map(|b| h.get(&HashAlgorithm::Sha256).map(|v| v.value().to_vec()) == Some(ring::digest::digest(&ring::digest::SHA256, &b).as_ref().to_vec())).unwrap_or(false)), _ => false };
+            r.case("argument-spelling", json!({"spelling": format!("<T>/{}", sp), "same_directory_as": "<T>/a/b"}), "the entries of <T>/a/b; every key names a file with the recorded digest",
+                   format!("same_as_reference={} every_entry_true={} got={:?}", same, honest, got.as_ref().map(|x| x.as_ref().map(|m| m.keys().map(|k| k.value().rsplit('/').next().unwrap_or("").to_string()).collect::<Vec<_>>()).map_err(|e| e.to_string()))), same && honest);
+        }
+    }
     let got = no_panic(|| record_artifacts(&[rs.as_str(), format!("{}/a", rs).as_str()], None, None));
     r.case("overlapping-arguments", json!({"paths": ["<root>", "<root>/a"]}), "Err (the same file would be recorded twice)", format!("{:?}", got.as_ref().map(|x| x.as_ref().map(|m| m.len()).map_err(|e| e.to_string().len()))), matches!(&got, Ok(Err(_))));
     for algs in [vec!["sha256"], vec!["sha512"], vec!["sha256", "sha512"], vec!["sha512", "sha256"]] {
